@@ -175,6 +175,20 @@ def nontrivial(r):
     return False
 
 
+def in_gap(r):
+    """some submitter started a submission (read _force_quit) while the loop thread sat between close_loop() and the
+    return of its handler, i.e. between the loop thread's access preceding a (27) and that (27)"""
+    trace = r.get("trace", [])
+    last0 = None
+    for j, ev in enumerate(trace):
+        if ev[0] != 0:
+            continue
+        if ev[1] == 27 and last0 is not None and any(e[0] != 0 and e[1] == 1 for e in trace[last0 + 1:j]):
+            return True
+        last0 = j
+    return False
+
+
 # ------------------------------------------------------------------ generators
 PRIOS = [-5, 0, 0, 0, 0, 1]
 
@@ -238,7 +252,7 @@ def f10_cases():
     progs = [[[3, 1, 0, []], [4]], [[0, 2, 0, []]]]
     out = []
     for a in range(10, 18):            # accesses of the submitter before the loop thread closes the level
-        for b in range(0, 8):          # accesses of close_loop before the submitter resumes
+        for b in range(0, 9):          # accesses of close_loop (+ the handler's return) before the submitter resumes
             out.append(dict(progs=progs, sched=[0] * 20 + [1] * a + [0] * b + [1] * 20 + [0] * 10, note="F10 a=%d b=%d" % (a, b)))
     return out
 
@@ -264,6 +278,27 @@ def routing_cases():
     return out
 
 
+def gap_cases():
+    """Submissions falling into the gap between close_loop() (which leaves _run_loop = False) and the return of the
+    handler that called it (the closed level's _mainloop re-arms the flag).  Sources registered at the root level,
+    which stays open, or nowhere: the signals must be put and later dispatched as at any other time."""
+    out = []
+    for src in ([5], []):
+        progs = [[[2, 5], [3, 1, 0, []], [4], [1], [1], [1]], [[0, 2, 0, src], [0, 3, 0, src]], [[0, 4, 0, [5]]]]
+        for a in range(0, 18, 2):            # accesses of submitter 1 before the loop thread closes the level
+            for k in (2, 10, 16, 32):        # accesses of the submitters inside the gap
+                out.append(dict(progs=progs, sched=[0] * 23 + [1] * a + [0] * 7 + [1] * k + [2] * k + [0] + [1] * 40 + [2] * 20 + [0] * 6,
+                                note="gap src=%s a=%d k=%d" % (src, a, k)))
+    # two nested levels, the inner one closed; sources at levels 0 and 1
+    progs = [[[2, 5], [3, 1, 0, []], [2, 6], [3, 7, 0, []], [4], [1], [4], [1], [1], [1]],
+             [[0, 2, 0, [6]], [0, 3, 0, [5]]], [[0, 4, 0, []]]]
+    for k in (3, 12, 30):
+        for j in (0, 5, 14):
+            out.append(dict(progs=progs, sched=[0] * 46 + [0] * 7 + [1] * k + [2] * j + [0] * 2 + [1] * 40 + [2] * 30 + [0] * 14,
+                            note="gap, two levels k=%d j=%d" % (k, j)))
+    return out
+
+
 def corpus_cases():
     out = []
     for p in sorted(glob.glob(os.path.join(CORPUS, "*.json"))):
@@ -277,7 +312,8 @@ SMALL_CONFIGS = [
     # (progs, prefix schedule, name, in quick tier)   exhaustive: every stutter-free interleaving after the prefix
     ([[[1], [1]], [[0, 1, 0, []], [0, 2, 0, []]]], [], "2 signals of one thread, loop dispatches twice", True),
     ([[[2, 1], [1], [1]], [[0, 1, 0, [1]]], [[0, 2, 0, [1]]]], [0, 0, 0], "2 submitters x 1 registered signal, loop dispatches twice", True),
-    ([[[3, 1, 0, []], [1], [4]], [[0, 2, 0, []]]], [0] * 20, "level open; loop {dispatch, close} vs 1 unregistered submission (F10 scope)", True),
+    ([[[3, 1, 0, []], [4]], [[0, 2, 0, []]]], [0] * 20, "level open; loop {close + handler return} vs 1 unregistered submission (F10 scope, gap)", True),
+    ([[[3, 1, 0, []], [1], [4]], [[0, 2, 0, []]]], [0] * 20, "level open; loop {dispatch, close} vs 1 unregistered submission (F10 scope)", False),
     ([[[1], [1]], [[0, 1, 0, []]], [[0, 2, 0, []]]], [], "2 submitters x 1 unregistered signal, loop dispatches twice", False),
     ([[[2, 1], [3, 9, 0, []], [4], [1]], [[0, 1, 0, [1]], [0, 2, 0, [1]]]], [0] * 23,
      "level open; loop {close, dispatch} vs 2 signals of one thread registered at level 0", False),
@@ -314,6 +350,8 @@ def judge(chk, case, impl, model, origin):
     chk.hist("levels_end=%d" % len(impl["evq"]))
     if impl["state"][0]:
         chk.hist("force_quit")
+    if in_gap(impl):
+        chk.hist("submission-access-in-close-gap")
     if impl.get("errors"):
         report(chk, "impl-exception", "a thread of the implementation raised %s" % impl["errors"],
                       dict(kind="conc", case=case, impl=impl), True)
@@ -355,6 +393,7 @@ def run(chk, tier):
         run_batch(chk, pool, corpus_cases(), "corpus")
         run_batch(chk, pool, f10_cases(), "f10-neighbourhood")
         run_batch(chk, pool, routing_cases(), "routing")
+        run_batch(chk, pool, gap_cases(), "close-gap")
         nrand = 450 if tier == "quick" else 6000
         rnd = []
         for i in range(nrand):
